@@ -67,6 +67,73 @@ PAIRS = [
 ]
 
 
+# word loads whose legacy (ARMv6 with SCTLR.U = 0 / A = 0, ARMv5) unaligned behaviour is the rotated aligned word:
+# (name, word, addressing) with r0 base, r1 index, r4 destination
+ROT_LOADS = [
+    ('LDR imm offset', 0xE5904000, 'off'), ('LDR imm pre-index', 0xE5B04000, 'pre'), ('LDR imm post-index', 0xE4904000, 'post'),
+    ('LDR reg offset', 0xE7904001, 'roff'), ('LDR reg post-index', 0xE6904001, 'rpost'),
+    ('LDRT imm', 0xE4B04000, 'post'), ('LDRT reg', 0xE6B04001, 'rpost'),
+]
+
+
+def insn_rotated(spec, ls):
+    """reference-free: legacy unaligned word load = the aligned word rotated right by 8 x address<1:0>, base write-back as
+    for an aligned access, nothing stored"""
+    from vf import scen, machine as M, observe
+    rng = rng_for(ID, 'rot', spec['seed'], spec['shard'])
+    res = ls.res
+    for i in range(spec['n'] // 4):
+        name, w, am = ROT_LOADS[rng.randrange(len(ROT_LOADS))]
+        ctxkey = rng.choice([('v6-pmsa-sec', 'off'), ('v6-pmsa', 'off'), ('v5-pmsa', 'off')])
+        ctx = ls.ctx(ctxkey)
+        e = rng.randrange(2)
+        addr = rng.choice([0x100, 0x1000, 0x3F8, 0x7FE0, 0x11F00]) + rng.randrange(8)
+        imm = rng.choice([0, 1, 2, 3, 4, 5, 7, 8, 0x101])
+        index = rng.choice([0, 1, 2, 3, 4, 6, 0x103])
+        if am in ('off', 'pre'):
+            base, word, wb = addr - imm, w | imm, (addr if am == 'pre' else None)
+        elif am == 'post':
+            base, word, wb = addr, w | imm, addr + imm
+        elif am == 'roff':
+            base, word, wb = addr - index, w, None
+        else:
+            base, word, wb = addr, w, addr + index
+        regs = [None] * 15
+        regs[0], regs[1] = base & 0xFFFFFFFF, index
+        mode = rng.choice(['svc', 'sys', 'usr', 'irq'])
+        desc = scen.prepare(ctx, rng, 'arm', word, mode=mode, itpos='out', regs=regs, e=e)
+        cpu = ctx.cpu
+        cpu.registers.sctlr.u = 0
+        cpu.registers.sctlr.a = 0
+        pre = observe.snapshot(cpu)
+        k, sig = scen.step(cpu)
+        post = observe.snapshot(cpu)
+        res['evaluations'] += 1
+        desc.update(load=name, address=hex(addr), e=e)
+        if k != 'ok' or (post['cpsr'] & 0x1F) != (pre['cpsr'] & 0x1F):
+            ls.report('C13|insn-rotated-load|did-not-complete|%s' % name, dict(desc, outcome=str((k, sig))), desc)
+            continue
+        ls.bump('insn_rotated_loads')
+        dev = 'mem0' if addr < 0x8000 else 'mem1'
+        o = (addr & ~3) - (0 if dev == 'mem0' else 0x10000)
+        aligned = int.from_bytes(pre[dev][o:o + 4], 'big' if e else 'little')
+        rot = 8 * (addr & 3)
+        want = ((aligned >> rot) | (aligned << (32 - rot))) & 0xFFFFFFFF
+        cell = 'rot|%s|o%d|E%d|%s' % (name, addr & 3, e, ctxkey[0])
+        res['sets']['insn_cells'].add(cell)
+        if addr & 3:
+            res['nontrivial'].add(cell)
+        why = None
+        if post['R4usr'] != want:
+            why = 'loaded %#x, the rotated aligned word is %#x' % (post['R4usr'], want)
+        elif wb is not None and post['R0usr'] != wb & 0xFFFFFFFF:
+            why = 'base written back as %#x, expected %#x' % (post['R0usr'], wb & 0xFFFFFFFF)
+        elif any(pre[d] != post[d] for d in ('mem0', 'mem1', 'mem2')):
+            why = 'a load changed memory'
+        if why:
+            ls.report('C13|insn-rotated-load|%s|E%d|lane%d' % (name, e, addr & 3), dict(desc, why=why), desc)
+
+
 def insn_roundtrip(spec):
     """reference-free, at the instruction level: a store followed by a load of the same size at the same address returns
     the stored value (sign-/zero-extended), the bytes in memory are the value in CPSR.E order, and no other byte changes"""
@@ -160,6 +227,7 @@ def insn_roundtrip(spec):
         if why:
             ls.report('C13|insn-roundtrip|%s|%s|%s' % (name, 'E1' if e else 'E0', 'aligned' if off % size == 0 else 'unaligned'),
                       dict(desc, why=why), desc)
+    insn_rotated(spec, ls)
     res['violations'] = list(ls.viol.values())
     return res
 
@@ -292,6 +360,8 @@ def finish(agg, tier, seed):
         inc.append('only %d of 1536 cells covered' % len(agg['sets'].get('cells', ())))
     if agg['counters'].get('fetches_E1', 0) < 100:
         inc.append('too few big-endian fetches')
+    if agg['counters'].get('insn_rotated_loads', 0) < 1000:
+        inc.append('too few legacy rotated loads at the instruction level (%d)' % agg['counters'].get('insn_rotated_loads', 0))
     if agg['counters'].get('insn_roundtrips', 0) < 3000:
         inc.append('too few instruction-level store/load round trips (%d)' % agg['counters'].get('insn_roundtrips', 0))
     return dict(inconclusive=inc, coverage=dict(
